@@ -73,6 +73,15 @@ def convert_cli(doc, at, drop, clip=False):
     if p.returncode != 0: return None
     return p.stdout.decode()
 
+UNSUPPORTED_TAGS = ('filter', 'mask', 'image', 'foreignObject', 'a', 'pattern', 'style', 'switch', 'marker', 'script', 'animate', 'set')
+def strip_unsupported(doc, allow_text):
+    root = etree.fromstring(doc.encode())
+    for el in list(root.iter()):
+        if isinstance(el.tag, str) and etree.QName(el).localname in UNSUPPORTED_TAGS + (() if allow_text else ('text', 'tspan', 'textPath')):
+            if el.getparent() is not None:
+                tail = el.tail; par = el.getparent(); par.remove(el)
+    return etree.tostring(root).decode()
+
 UNSUP_RE = re.compile(r'BadElement|MissingElement')
 def judge(doc, nd, at, drop, cli=False):
     """None if fine, else (law, expected, observed)"""
@@ -81,6 +90,11 @@ def judge(doc, nd, at, drop, cli=False):
     except ValueError as e:
         if drop and re.search(r'BadElement: \S+( |,|$)(?!reuses)', str(e)) and any('reuses id' not in part for part in str(e).split('BadElement:')[1:]):
             return ('with drop_unsupported the call does not fail because of unsupported elements', 'normal return', {'raised': str(e)[:300]})
+        if drop and not cli:
+            # any other failure: if the same document without its unsupported elements converts, they were the cause
+            try: convert_lib(strip_unsupported(doc, at), nd, at, drop)
+            except Exception: return None
+            return ('with drop_unsupported the call does not fail because of unsupported elements', 'normal return (the document converts once they are taken out)', {'raised': str(e)[:300]})
         return None
     except Exception:
         return None
@@ -112,6 +126,32 @@ def search(ctx, broken, disagreements):
             found.append({'law': v[0], 'input': {'doc': doc, 'ndigits': nd, 'allow_text': at, 'drop_unsupported': drop, 'cli': cli},
                           'expected_by_spec': jsonable(v[1]), 'observed': jsonable(v[2])})
             if len(found) >= 4: break
+    # the command line tool over its whole flag matrix on documents with text and / or unsupported content
+    H = '<svg xmlns="http://www.w3.org/2000/svg" viewBox="0 0 20 20">'
+    R = '<rect x="2" y="2" width="6" height="6" fill="red"/>'
+    for body in (R + '<text x="1" y="5">hi</text>', R + '<image width="5" height="5"/>', R + '<text x="1" y="9"><tspan>a</tspan></text><filter id="f"/>', R):
+        for at in (False, True):
+            for drop in (False, True):
+                for cli in (True, 'clip'):
+                    n += 1
+                    v = judge(H + body + '</svg>', 3, at, drop, cli)
+                    if v and len(found) < 6:
+                        found.append({'law': v[0], 'input': {'doc': H + body + '</svg>', 'ndigits': 3, 'allow_text': at, 'drop_unsupported': drop, 'cli': cli},
+                                      'expected_by_spec': jsonable(v[1]), 'observed': jsonable(v[2])})
+    # more gradients of one kind than one digit can index (paths like /svg[0]/defs[0]/linearGradient[11])
+    many = H + '<defs>' + ''.join(f'<linearGradient id="lg{j}"><stop offset="0" stop-color="red"/><stop offset="1" stop-color="blue"/></linearGradient>'
+                                  f'<radialGradient id="rg{j}"><stop offset="0" stop-color="red"/><stop offset="1" stop-color="blue"/></radialGradient>' for j in range(12)) + '</defs>' + \
+           ''.join(f'<rect x="{j}" y="1" width="3" height="3" fill="url(#lg{j})"/><rect x="{j}" y="6" width="3" height="3" fill="url(#rg{j})"/>' for j in range(12)) + '</svg>'
+    for drop in (False, True):
+        n += 1
+        v = judge(many, 3, False, drop, False)
+        if v is None:
+            try:
+                out = convert_lib(many, 3, False, drop)
+                if out.count('Gradient id=') != 24: v = ('conversion keeps every gradient that is in use', '24 gradients', {'gradients_in_output': out.count('Gradient id='), 'output': out[:1500]})
+            except Exception as ex: v = ('a document with 24 used gradients converts', 'normal return', {'raised': repr(ex)[:300]})
+        if v and len(found) < 6:
+            found.append({'law': v[0], 'input': {'doc': many, 'ndigits': 3, 'allow_text': False, 'drop_unsupported': drop, 'cli': False}, 'expected_by_spec': jsonable(v[1]), 'observed': jsonable(v[2])})
     return found, {'evaluations': n, 'distribution': dist}
 
 def matches_known(v, entry):
